@@ -33,6 +33,9 @@ type wrapCfg struct {
 	// a cancelled caller that nothing holds at a gate must have returned when the step has settled, whatever else is
 	// still in progress (real-time scenarios with a completion parked in mid-release)
 	PromptCancel bool `json:"promptcancel"`
+	// every caller seen blocked is asleep in the backlog (the callers arrived one after the other, each settled): a caller
+	// must not go to sleep in a step at whose start the backlog held its maximum of blocked callers
+	StrictFull bool `json:"strictfull"`
 }
 
 type ctorCase struct {
